@@ -50,6 +50,10 @@ func (s *StreamSelectorPlanner) getMatchers() (*matchersResponse, error) {
 		if err != nil {
 			return nil, err
 		}
+		if selector.Op == "=~" || selector.Op == "!~" {
+			// label matchers are fully anchored; ClickHouse match() is a search
+			_str = "^(?:" + _str + ")$"
+		}
 		var clause sql.SQLCondition
 		switch selector.Name {
 		case "__name__":
